@@ -14,7 +14,7 @@ ck = importlib.util.module_from_spec(_spec)
 _loader.exec_module(ck)
 
 SCENARIOS = {
-    "C17": ["blocking", "timeout", "contended", "in_runtime", "deadletters", "blocking_ask_vs_end", "blocking", "timeout", "contended", "blocking_ask_vs_end", "end_vs_observers", "erased_blocking", "timed_independent", "timed_blocking_vs_end", "kill_busy_from_thread", "parked_executor", "parked_executor"],
+    "C17": ["blocking", "timeout", "contended", "in_runtime", "deadletters", "blocking_ask_vs_end", "blocking", "timeout", "contended", "blocking_ask_vs_end", "end_vs_observers", "erased_blocking", "timed_independent", "timed_blocking_vs_end", "kill_busy_from_thread", "parked_executor", "parked_executor", "timed_independent"],
     "C01": ["async_mt"],
     "C03": ["ask_vs_end", "ask_vs_end", "async_mt", "end_vs_observers", "parked_executor"],
     "C02": ["async_mt"],
